@@ -56,6 +56,14 @@ fn scenarios(ctx: &Ctx) -> Vec<Scenario> {
   // connect phase
   add("ok", false, vec![good_c(1)], vec![good_a(p3.clone())]);
   add("connect-1-drop", false, vec![Resp::Drop, good_c(2)], vec![good_a(p3.clone())]);
+  // large replies: a datagram may carry up to 65507 bytes; sizes around the client's receive buffer
+  for n in [338usize, 339, 1000, 1361, 1362, 1363, 1400, 3000, 10_000] {
+    let mut distinct = Vec::with_capacity(n * 6);
+    for i in 0..n {
+      distinct.extend_from_slice(&[10, (i >> 16) as u8, (i >> 8) as u8, i as u8, 0x1a, 0xe1]);
+    }
+    add(&format!("announce-{n}-peers"), false, vec![good_c(70)], vec![good_a(distinct)]);
+  }
   // every connection id is the tracker's to choose, including the ones that look like "none"
   for (label, id) in [("zero", 0u64), ("one", 1), ("all-ones", u64::MAX), ("magic", 0x41727101980), ("high-bit", 1 << 63), ("low-32-zero", 7 << 32)] {
     add(&format!("connection-id-{label}"), false, vec![Resp::Correct(id.to_be_bytes().to_vec())], vec![good_a(p3.clone())]);
